@@ -44,8 +44,8 @@ LEVEL_TEXT = (
 LEVEL_NOTE = (
     "Trusted: json module, dataclasses.asdict. Judged: every result serialises with the stock encoder and survives a JSON round trip unchanged "
     "(NaN equals NaN); for x = JSON form of a decoded payload, encode(x) is accepted and decodes to x (U+FFFD from undecodable text bytes "
-    "comes back as '?'); a page walk with limit >= 1 yields exactly the filtered class list, once, in order; a refused send queues nothing. "
-    "Recorded only: limit = 0 and negative limits, exceptions of read_group_value for answers the value type cannot decode, distance of "
+    "comes back as '?'); a text needle contained in one field value selects exactly the types having it (case-insensitively) in number, value type or unit; a page walk with limit >= 1 yields exactly that list, once, in order; a refused send queues nothing. "
+    "Recorded only: what needles with whitespace/control characters or spanning several fields select, limit = 0 and negative limits, exceptions of read_group_value for answers the value type cannot decode, distance of "
     "decode(encode(v)) from arbitrary in-range v (C09 judges it)."
 )
 SHARDS = {"quick": 1, "thorough": 16}
@@ -278,6 +278,15 @@ def _ref_listing(main: int | None, text: str | None) -> list[str]:
     return [_ident(d.dpt_number_str(), d.value_type) for d in out]
 
 
+def _benign_needle(text: str | None, tree: list[Any]) -> bool:
+    """A needle whose meaning the DptFilter description fixes: no whitespace / control characters and
+    contained (case-insensitively) in one single field value - number, value type or unit - of some DPT."""
+    if not text or any(ch.isspace() or not ch.isprintable() for ch in text):
+        return False
+    t = text.lower()
+    return any(t in f.lower() for d in tree for f in (d.dpt_number_str(), d.value_type or "", d.unit or ""))
+
+
 def _ident(number: str, value_type: str | None) -> str:
     return f"{number}|{value_type}"
 
@@ -291,6 +300,34 @@ async def _paging(ctx: Any) -> None:
         ctx.assumptions.append("some DPT classes share (number, value_type); 'exactly once' is judged as a multiset")
     mains = sorted({d.dpt_main_number for d in tree if d.dpt_main_number is not None})
     words = sorted({w for d in tree for w in (d.value_type or "", d.unit or "", d.dpt_number_str()) if w})
+    # every distinct unit in four spellings, every value type, every number: the one-call listing must be the denoted set
+    needles: list[str] = []
+    for u in sorted({d.unit for d in tree if d.unit}):
+        needles += [u, u.lower(), u.upper(), u.swapcase()]
+    for d in tree:
+        if d.value_type:
+            needles += [d.value_type, d.value_type.upper()]
+        needles.append(d.dpt_number_str())
+    needles = list(dict.fromkeys(n for n in needles if _benign_needle(n, tree)))
+    for k, text in enumerate(needles):
+        if not ctx.mine(k):
+            continue
+        ctx.ev()
+        ref = _ref_listing(None, text)
+        res = await list_dpts(DptFilter(text=text, limit=100000))
+        got = [_ident(x.dpt, x.value_type) for x in res.dpts]
+        ctx.count("filter_selections_judged")
+        ctx.count("needle_sweep")
+        if got != ref or res.total_count != len(ref):
+            missing = [x for x in ref if x not in got]
+            extra = [x for x in got if x not in ref]
+            ctx.violation("list_dpts-text-filter-" + ("drops-matching-types" if missing else "lists-non-matching-types" if extra else "order-differs"),
+                          {"main": None, "text": text, "expected_n": len(ref), "got_n": len(got), "missing": missing[:10], "extra": extra[:10], "total_count": res.total_count},
+                          f"list_dpts(text={text!r}): the filter denotes {len(ref)} types (case-insensitive match on number, value type, unit), {len(got)} listed; missing {missing[:4]}, extra {extra[:4]}")
+        else:
+            ctx.count("filter_selections_as_documented")
+        ctx.distinct(("needle", "unit" if any(text.lower() == (d.unit or "").lower() for d in tree) else "other", text.islower(), text.isupper(), len(ref) if len(ref) < 4 else "many"))
+    units = sorted({d.unit for d in tree if d.unit})
     n_filters = ctx.scale(120, 1500)
     for k in range(n_filters):
         if not ctx.mine(k):
@@ -300,7 +337,8 @@ async def _paging(ctx: Any) -> None:
         else:
             main = rng.choice((None, None, rng.choice(mains), rng.choice(mains), 0, 4711, -1))
             w = rng.choice(words)
-            text = rng.choice((None, None, "", w, w.upper(), w[: rng.randint(1, max(1, len(w)))], w[rng.randrange(len(w)):], ".", "0", "°", "\n", "zzzz-no-match", " ", "%"))
+            u = rng.choice(units)
+            text = rng.choice((None, None, "", u, u.lower(), u.upper(), w, w.upper(), w[: rng.randint(1, max(1, len(w)))], w[rng.randrange(len(w)):], ".", "0", "°", "\n", "zzzz-no-match", " ", "%"))
         ref = _ref_listing(main, text)
         limit = rng.choice((1, 1, 2, 3, 5, 7, 10, 50, 199, 200, 201, 229, 230, 231, 1000, max(1, len(ref)), max(1, len(ref) - 1), len(ref) + 1)) if k else 7
         ctx.ev()
@@ -309,8 +347,19 @@ async def _paging(ctx: Any) -> None:
         full = await list_dpts(DptFilter(main=main, text=text, limit=100000))
         _json_native(ctx, "list_dpts", full, wit)
         got_full = [_ident(s.dpt, s.value_type) for s in full.dpts]
-        if got_full != ref:
-            # the statement is silent on what a text filter selects (e.g. "\n" matches the joined haystack): recorded
+        if _benign_needle(text, tree) or not text:
+            ctx.count("filter_selections_judged")
+            if got_full != ref:
+                missing = [x for x in ref if x not in got_full]
+                extra = [x for x in got_full if x not in ref]
+                ctx.violation("list_dpts-text-filter-" + ("drops-matching-types" if missing else "lists-non-matching-types" if extra else "order-differs"),
+                              {**wit, "expected_n": len(ref), "got_n": len(got_full), "missing": missing[:10], "extra": extra[:10]},
+                              f"list_dpts(main={main}, text={text!r}): the filter denotes {len(ref)} types (case-insensitive match on number, value type, unit), "
+                              f"{len(got_full)} listed; missing {missing[:4]}, extra {extra[:4]}")
+            else:
+                ctx.count("filter_selections_as_documented")
+        elif got_full != ref:
+            # needles with whitespace / control characters or matching no single field (e.g. "\n" across the joined fields): recorded
             ctx.count("recorded_filter_selection_differs_from_documented_predicate")
         in_tree = all(got_full.count(x) == idents.count(x) for x in set(got_full)) and set(got_full) <= set(idents)
         main_ok = main is None or all(x.split("|")[0].split(".")[0] == str(main) for x in got_full)
@@ -513,7 +562,7 @@ def run(ctx: Any) -> None:
         "describe_dpt for every number and value-type name; read/send tools on a real XKNX with generated inputs. distinct = (class, outcome, JSON type) "
         "/ (filter shape, limit class, #pages) / (tool, outcome, input types)"
     )
-    ctx.require("results_checked", "decoded", "encoded", "inverse_checked", "inverse_held", "encode_first_checked", "encode_first_falsy_payload_decoded", "page_walks", "page_walks_exact", "pages_fetched",
+    ctx.require("results_checked", "decoded", "encoded", "inverse_checked", "inverse_held", "encode_first_checked", "encode_first_falsy_payload_decoded", "page_walks", "page_walks_exact", "pages_fetched", "filter_selections_judged", "filter_selections_as_documented", "needle_sweep",
                 "results_list_dpts", "results_describe_dpt", "results_decode_dpt_payload", "results_encode_dpt_payload")
     loop = new_loop()
     try:
